@@ -124,10 +124,24 @@ func (r *runner) exec(st []step, level zapcore.Level, disabled bool) (msg string
 		lg, logs = r.dlogger, r.dlogs
 	}
 	w := &zapio.Writer{Log: lg, Level: level}
+	var scratch []byte
 	for i, s := range st {
 		switch s.kind {
 		case 'W':
-			n, err := w.Write([]byte(s.data))
+			// io.Writer: "Write must not modify the slice data ... Implementations
+			// must not retain p." The caller owns the buffer and reuses it, as
+			// io.Copy and os/exec do: the chunk is handed over in a scratch
+			// buffer that is overwritten as soon as Write returns.
+			buf := append(scratch[:0], s.data...)
+			n, err := w.Write(buf)
+			if string(buf) != s.data {
+				logs.TakeAll()
+				return fmt.Sprintf("call %d %v modified the caller's slice: %q", i, s, buf)
+			}
+			for j := range buf {
+				buf[j] = 0xDB
+			}
+			scratch = buf
 			if n != len(s.data) || err != nil {
 				logs.TakeAll()
 				return fmt.Sprintf("call %d %v returned (%d, %v)", i, s, n, err)
